@@ -273,6 +273,14 @@ func vkBehaviours() []vkBehaviour {
 		vkRefB("ref-self", 0, func(c *vkBCtx) ([]dns.RR, []dns.RR, bool) {
 			return []dns.RR{vkNS(c.zone, c.evil)}, vkEvilGlue(c), true
 		}),
+		// the same, with the zone's own name spelled in another letter case (names compare case-insensitively)
+		vkRefB("ref-self-othercase", 0, func(c *vkBCtx) ([]dns.RR, []dns.RR, bool) {
+			up := strings.ToUpper(c.zone)
+			if up == c.zone {
+				return nil, nil, false
+			}
+			return []dns.RR{vkNS(up, c.evil)}, vkEvilGlue(c), true
+		}),
 		vkRefB("ref-up-tld", 0, func(c *vkBCtx) ([]dns.RR, []dns.RR, bool) {
 			return []dns.RR{vkNS("t.", c.evil)}, vkEvilGlue(c), true
 		}),
